@@ -118,3 +118,22 @@ Proof.
 Qed.
 
 End FindTotal.
+
+Lemma C09_attempt_lemma :
+  forall r text off ln cl l, loop_ok r -> off <= length text ->
+  outs text off (defs_of r) r (off, []) l ->
+  exists fuel, forall k,
+    (exists c, run (compile r 0) text (fuel + k) (Running (init_core off ln cl) []) = Matched c) \/
+    run (compile r 0) text (fuel + k) (Running (init_core off ln cl) []) = NoMatch.
+Proof.
+  intros r text off ln cl l Hok Hoff Ho. destruct (attempt_refines r text off ln cl l Hok Hoff Ho) as (F & HF).
+  exists F. intros k. specialize (HF k). destruct l; [right; exact HF|left; eexists; exact HF].
+Qed.
+
+Lemma C09_find_defined_lemma :
+  forall r text, loop_ok r -> forall S, sscan r text 0 S ->
+  exists F, forall fuel, F <= fuel -> exists M, find_matches fuel (compile r 0) text true 0 0 0 = SOk M.
+Proof.
+  intros r text Hok S HS. destruct (find_correct_lemma r text Hok S HS) as (F & HF).
+  exists F. intros fuel Hf. destruct (HF fuel Hf) as (M & HM & _). exists M. exact HM.
+Qed.
